@@ -26,6 +26,7 @@ type concIn struct {
 	Seed       int64  `json:"seed"`
 	Comp       int    `json:"comp"`
 	RecSize    int    `json:"recsize"` // concrio: > 0 makes every record that many bytes longer (records larger than the 4 KiB seek window)
+	HashMode   string `json:"hashmode"` // concsst: "" default (verify on load) | "read" (verify every read) | "none"
 	CutTail    bool   `json:"cuttail"` // concrio: the file is cut inside its last record before the readers start (reads of it must fail, all others stay exact)
 }
 
@@ -64,7 +65,14 @@ func runConcSST(args []string) error {
 	if err := w.Close(); err != nil {
 		return err
 	}
-	rd, err := sstables.NewSSTableReader(sstables.ReadBasePath(dir), sstables.ReadWithKeyComparator(cmp))
+	ropts := []sstables.ReadOption{sstables.ReadBasePath(dir), sstables.ReadWithKeyComparator(cmp)}
+	switch in.HashMode {
+	case "read":
+		ropts = append(ropts, sstables.SkipHashCheckOnLoad(), sstables.EnableHashCheckOnReads())
+	case "none":
+		ropts = append(ropts, sstables.SkipHashCheckOnLoad())
+	}
+	rd, err := sstables.NewSSTableReader(ropts...)
 	if err != nil {
 		return err
 	}
